@@ -1396,6 +1396,12 @@ where
                         acc.violation("fold_axis", None, cj("fold_axis_skipnan", format!("lane {}: folded elements are not that lane's non-missing elements (each exactly once)", li)));
                         return;
                     }
+                    // the plain fold_axis on the filtered data visits a lane in increasing index along the axis: an
+                    // order-sensitive closure (here: append) must see the same sequence
+                    if got != &want {
+                        acc.violation("fold_axis", None, cj("fold_axis_skipnan", format!("lane {}: the non-missing elements were folded in another order than increasing index along the axis", li)));
+                        return;
+                    }
                 }
             }
         }
